@@ -216,8 +216,13 @@ def _lit(rng):
         return "0x%X" % rng.randrange(0, 70000)
     if r < 0.75:
         return "0x%x" % rng.randrange(0, 256)
-    if r < 0.85:
+    if r < 0.82:
         return "'%s'" % rng.choice("abcXYZ019 +-*/(){};:=<>#_")
+    if r < 0.85:
+        # characters that take 2, 3 and 4 bytes in UTF-8 and 1 or 2 units in UTF-16 (astral), quotes, backslash, tab:
+        # everything behind such a literal on the same line has a byte offset, a character count and a UTF-16 column
+        # that all differ
+        return "'%s'" % rng.choice(["\u00e4", "\u20ac", "\U0001F600", "\U0001D11E", "'", "\\", '"', "\t"])
     if r < 0.9:
         return "'\\n'"
     if r < 0.95:
